@@ -81,3 +81,54 @@ package security
 //@ loop j#2 unroll 4
 //@ loop i#2 invariant range (i uint32, length uint32): i <= length/32
 //@ loop i#2 invariant done (i uint32, obs []byte, ibs []byte, ck [16]byte, countC uint32, bearer uint32, direction uint32): len(obs) == len(ibs) && vc.Forall(0, 4*int(i), func(t int) bool { return obs[t] == ibs[t]^nasalg.EEA1KeystreamByte(ck, countC, bearer, direction, t) })
+
+//@ func NIA1
+//@ prop C07
+//@ opaque snow3gspec.S1 snow3gspec.S2 snow3gspec.MULa snow3gspec.DIVa snow3gspec.Init snow3gspec.Step snow3gspec.Out snow3gspec.Iter nasalg.MUL64 nasalg.MULxPOW64
+//@ requires len: len(msg) >= 1 && len(msg) < 1<<28 && length == uint64(len(msg))*8
+//@ requires dom: bearer <= 31 && direction <= 1
+//@ ensures ok: err == nil && len(mac) == 4
+//@ ensures mac: [4]byte{mac[0], mac[1], mac[2], mac[3]} == nasalg.EIA1(ik, countI, uint32(bearer), direction, msg)
+//@ assigns global free5gclib/nas/security/snow3g.lfsr free5gclib/nas/security/snow3g.fsm
+//@ loop i#1 unroll 4
+//@ loop i#2 invariant range (i uint64, D uint64): i <= D-2
+//@ loop i#2 invariant fold (i uint64, Eval uint64, P uint64, msg []byte): Eval == nasalg.EIA1Fold(P, msg, int(i))
+
+//@ func NEA2
+//@ prop C07
+//@ requires dom: bearer <= 31 && direction <= 1
+//@ ensures ok: err == nil && len(obs) == len(ibs)
+//@ ensures keystream: vc.Forall(0, len(ibs), func(j int) bool { return obs[j] == ibs[j]^nasalg.EEA2KeystreamByte(key, count, bearer, direction, j) })
+
+//@ func NIA2
+//@ prop C07
+//@ requires len: len(msg) < 1<<28
+//@ requires dom: bearer <= 31 && direction <= 1
+//@ ensures ok: err == nil && len(mac) == 4
+//@ ensures mac: [4]byte{mac[0], mac[1], mac[2], mac[3]} == nasalg.EIA2(key, count, bearer, direction, msg)
+
+//@ func NASEncrypt
+//@ prop C07 C06 C10
+//@ opaque snow3gspec.S1 snow3gspec.S2 snow3gspec.MULa snow3gspec.DIVa snow3gspec.Init snow3gspec.Step snow3gspec.Out snow3gspec.Iter nasalg.MUL64 nasalg.MULxPOW64 nasalg.EIA1Fold
+//@ maynil payload
+//@ requires len: len(payload) < 1<<28
+//@ requires nonempty: payload == nil || len(payload) >= 1
+//@ let in0 := append([]byte(nil), payload...)
+//@ ensures reject: (Bearer > 31 || Direction > 1 || payload == nil || AlgoID >= 3) == (result != nil)
+//@ ensures same: vc.Imp(result != nil || AlgoID == 0, vc.Forall(0, len(payload), func(j int) bool { return payload[j] == in0[j] }))
+//@ ensures nea1: vc.Imp(result == nil && AlgoID == 1, vc.Forall(0, len(payload), func(j int) bool { return payload[j] == in0[j]^nasalg.EEA1KeystreamByte(KnasEnc, Count, uint32(Bearer), uint32(Direction), j) }))
+//@ ensures nea2: vc.Imp(result == nil && AlgoID == 2, vc.Forall(0, len(payload), func(j int) bool { return payload[j] == in0[j]^nasalg.EEA2KeystreamByte(KnasEnc, Count, Bearer, Direction, j) }))
+//@ assigns payload
+//@ assigns global free5gclib/nas/security/snow3g.lfsr free5gclib/nas/security/snow3g.fsm
+
+//@ func NASMacCalculate
+//@ prop C07 C06 C10
+//@ opaque snow3gspec.S1 snow3gspec.S2 snow3gspec.MULa snow3gspec.DIVa snow3gspec.Init snow3gspec.Step snow3gspec.Out snow3gspec.Iter nasalg.MUL64 nasalg.MULxPOW64 nasalg.EIA1Fold
+//@ maynil msg
+//@ requires len: len(msg) < 1<<28
+//@ requires nonempty: msg == nil || len(msg) >= 1
+//@ ensures reject: (Bearer > 31 || Direction > 1 || msg == nil || AlgoID >= 3) == (result1 != nil)
+//@ ensures nia0: vc.Imp(result1 == nil && AlgoID == 0, result0 == nil)
+//@ ensures nia1: vc.Imp(result1 == nil && AlgoID == 1, len(result0) == 4 && [4]byte{result0[0], result0[1], result0[2], result0[3]} == nasalg.EIA1(KnasInt, Count, uint32(Bearer), uint32(Direction), msg))
+//@ ensures nia2: vc.Imp(result1 == nil && AlgoID == 2, len(result0) == 4 && [4]byte{result0[0], result0[1], result0[2], result0[3]} == nasalg.EIA2(KnasInt, Count, Bearer, Direction, msg))
+//@ assigns global free5gclib/nas/security/snow3g.lfsr free5gclib/nas/security/snow3g.fsm
